@@ -184,6 +184,10 @@ func TestCheck(t *testing.T) {
 		r.Case("raw-client/declared-vs-actual/"+kind, func(c *h.Case) { tcpDeclared(c, kind) })
 		r.Case("raw-server/corrupt-responses/"+kind, func(c *h.Case) { tcpRawServer(c, kind) })
 	}
+	for _, kind := range []string{"tcp", "unix", "udp", "ws"} {
+		kind := kind
+		r.Case("raw-server/late-response-forging-a-frame/"+kind, func(c *h.Case) { lateResponse(c, kind) })
+	}
 	r.Case("raw-client/header-bit-flips/udp", func(c *h.Case) { udpBitFlips(c) })
 	r.Case("raw-client/declared-vs-actual/udp", func(c *h.Case) { udpDeclared(c) })
 	r.Case("raw-server/corrupt-responses/udp", func(c *h.Case) { udpRawServer(c) })
@@ -867,3 +871,68 @@ func wsRawServer(c *h.Case) {
 }
 
 var _ = strings.Join
+
+// lateResponse: a caller gives up on call 1; the peer answers it late, with a body that is
+// itself a well-formed frame addressed to the call that is pending now. The pending call must
+// get its own answer and nothing of the late one.
+func lateResponse(c *h.Case, kind string) {
+	r := c.R
+	srv, err := peer.StartRaw(kind)
+	if err != nil {
+		r.Inconclusive(err.Error())
+		return
+	}
+	defer srv.Close()
+	client := srv.NewClient()
+	defer client.Abort()
+	for round := 0; round < 5; round++ {
+		// call 1: abandoned after 30 ms
+		ctx, _ := peer.Ctx(client, 30*time.Millisecond)
+		ch1 := make(chan error, 1)
+		go func() { _, err := client.Request(ctx, []byte("first call")); ch1 <- err }()
+		var q1 peer.RawReq
+		select {
+		case q1 = <-srv.Reqs:
+		case <-time.After(5 * time.Second):
+			r.Inconclusive("request not received")
+			return
+		}
+		<-ch1
+		// call 2: pending
+		ctx2, _ := peer.Ctx(client, 5*time.Second)
+		type res struct {
+			b   []byte
+			err error
+		}
+		ch2 := make(chan res, 1)
+		go func() { b, err := client.Request(ctx2, []byte("second call")); ch2 <- res{b, err} }()
+		var q2 peer.RawReq
+		select {
+		case q2 = <-srv.Reqs:
+		case <-time.After(5 * time.Second):
+			r.Inconclusive("second request not received")
+			return
+		}
+		// the late answer to call 1: its body is a frame for call 2's index carrying foreign bytes,
+		// padded so that several header alignments are tried over the rounds
+		forged := srv.Frame(q2.Index, []byte("these bytes belong to the answer of call 1"), false)
+		late := append(make([]byte, 0, len(forged)+round), forged...)
+		srv.Reply(q1.Conn, q1.Index, late, false)
+		time.Sleep(20 * time.Millisecond)
+		srv.Reply(q2.Conn, q2.Index, []byte("the answer of call 2"), false)
+		r.Eval(1)
+		select {
+		case got := <-ch2:
+			if got.err == nil && string(got.b) != "the answer of call 2" {
+				c.Violation("response-completed-with-bytes-of-another-message:"+kind, fmt.Sprintf("call 2 was handed %q", clip(got.b, 80)), map[string]interface{}{"transport": kind, "round": round})
+			}
+			if got.err != nil {
+				c.Violation("pending-call-failed-by-a-late-response:"+kind, fmt.Sprintf("a late, well-formed answer to an abandoned call made the pending call fail: %v", got.err), map[string]interface{}{"transport": kind, "round": round})
+			}
+		case <-time.After(8 * time.Second):
+			c.Violation("pending-call-lost-after-a-late-response:"+kind, "call 2 did not return", map[string]interface{}{"transport": kind})
+			return
+		}
+		r.Distinct(fmt.Sprintf("%s|late-response|%d", kind, round))
+	}
+}
